@@ -6,6 +6,7 @@ package opb
 
 import (
 	"bytes"
+	"crypto/ecdsa"
 	"crypto/ed25519"
 	"crypto/elliptic"
 	"crypto/sha256"
@@ -92,6 +93,11 @@ func canonWrite(buf *bytes.Buffer, v interface{}) {
 		buf.WriteString(strconv.FormatInt(t, 10))
 	case uint64:
 		buf.WriteString(strconv.FormatUint(t, 10))
+	case float64:
+		if t != float64(int64(t)) || t > 1<<53 || t < -(1<<53) {
+			panic("opb.Canon: non-integral float")
+		}
+		buf.WriteString(strconv.FormatInt(int64(t), 10))
 	case []interface{}:
 		buf.WriteByte('[')
 		for i, e := range t {
@@ -422,3 +428,61 @@ func DeactivateRequest(suffix, reveal, signedData string) M {
 
 // DefaultHeaders gives the protected headers the library's signers produce.
 func DefaultHeaders(k *Key) M { return M{"alg": k.Type.Alg()} }
+
+// ---------------------------------------------------------------- independent verification
+
+func curveFor(crv string) (elliptic.Curve, int, KeyType, bool) {
+	switch crv {
+	case "P-256":
+		return elliptic.P256(), 32, P256, true
+	case "P-384":
+		return elliptic.P384(), 48, P384, true
+	case "P-521":
+		return elliptic.P521(), 66, P521, true
+	case "secp256k1":
+		return btcec.S256(), 32, Secp256k1, true
+	}
+	return nil, 0, 0, false
+}
+
+func strMember(m map[string]interface{}, k string) string {
+	s, _ := m[k].(string)
+	return s
+}
+
+// VerifyJWK is the harness's own reading of "signature sig over msg verifies under this JWK":
+// supported kty/crv, coordinates of exactly the curve's width that lie on the curve, signature of
+// exactly twice that width (64 bytes for Ed25519), and the standard library's verdict.
+func VerifyJWK(jwk map[string]interface{}, msg, sig []byte) bool {
+	switch strMember(jwk, "kty") {
+	case "EC":
+		c, size, kt, ok := curveFor(strMember(jwk, "crv"))
+		if !ok {
+			return false
+		}
+		xb, err1 := B64.DecodeString(strMember(jwk, "x"))
+		yb, err2 := B64.DecodeString(strMember(jwk, "y"))
+		if err1 != nil || err2 != nil || len(xb) != size || len(yb) != size {
+			return false
+		}
+		x, y := new(big.Int).SetBytes(xb), new(big.Int).SetBytes(yb)
+		if !c.IsOnCurve(x, y) {
+			return false
+		}
+		if len(sig) != 2*size {
+			return false
+		}
+		h := hashForSig(kt, msg)
+		return ecdsa.Verify(&ecdsa.PublicKey{Curve: c, X: x, Y: y}, h, new(big.Int).SetBytes(sig[:size]), new(big.Int).SetBytes(sig[size:]))
+	case "OKP":
+		if strMember(jwk, "crv") != "Ed25519" {
+			return false
+		}
+		xb, err := B64.DecodeString(strMember(jwk, "x"))
+		if err != nil || len(xb) != ed25519.PublicKeySize {
+			return false
+		}
+		return ed25519.Verify(ed25519.PublicKey(xb), msg, sig)
+	}
+	return false
+}
